@@ -2,6 +2,7 @@ import CalVerif.Model.SheetTypes
 import CalVerif.Gen.SheetCodes
 import CalVerif.Model.Metadata
 import CalVerif.Spec.SstEnc
+import CalVerif.Spec.XlsbEnc
 /-! Encoders of the workbook-level metadata (property C16): how a logical sheet list / defined names / date
     flag is laid out as BIFF8 globals records, as XLSB workbook records, and as XML events of
     `xl/workbook.xml` and `content.xml`. The round-trip theorems of `Props/C16.lean` are about these
@@ -133,29 +134,14 @@ def declaredSheets : List GRec → List XlsSheet
 /-- the workbook uses the 1904 date system iff some DATEMODE record carries 1 -/
 def declared1904 (recs : List GRec) : Bool := recs.any fun r => match r with | .date v => v == 1 | _ => false
 
-/-! ## XLSB -/
+/-! ## XLSB (framing and field encoders: C03's `Spec/XlsbEnc.lean`) -/
 
-/-- XLWideString: cch (u32), UTF-16LE units -/
-def wideStr (us : List Nat) : Bytes := le32 us.length ++ us.flatMap le16
-
-/-- BrtBundleSh payload: hsState, iTabID, strRelID, strName -/
+/-- BrtBundleSh payload: hsState, iTabID, strRelID, strName (XLWideStrings) -/
 def encodeBundleSh (hs tabId : Nat) (relUnits nameUnits : List Nat) : Bytes :=
-  le32 hs ++ le32 tabId ++ wideStr relUnits ++ wideStr nameUnits
-
-/-- record id, shortest form -/
-def varId (id : Nat) : Bytes := if id < 128 then [byte id] else [byte (id % 128 + 128), byte (id / 128)]
-
-/-- record length, shortest form (n < 2^28) -/
-def varLen (n : Nat) : Bytes :=
-  if n < 128 then [byte n]
-  else if n < 16384 then [byte (n % 128 + 128), byte (n / 128)]
-  else if n < 2097152 then [byte (n % 128 + 128), byte (n / 128 % 128 + 128), byte (n / 16384)]
-  else [byte (n % 128 + 128), byte (n / 128 % 128 + 128), byte (n / 16384 % 128 + 128), byte (n / 2097152)]
-
-def brec (id : Nat) (payload : Bytes) : Bytes := varId id ++ varLen payload.length ++ payload
+  Xlsb.le32 hs ++ Xlsb.le32 tabId ++ Xlsb.wideBytes relUnits ++ Xlsb.wideBytes nameUnits
 
 /-- BrtWbProp payload: flags (bit 0 = f1904), dwThemeVersion, strName (empty) -/
-def encodeWbProp (flags : Nat) : Bytes := le32 flags ++ le32 0 ++ wideStr []
+def encodeWbProp (flags : Nat) : Bytes := Xlsb.le32 flags ++ Xlsb.le32 0 ++ Xlsb.wideBytes []
 
 structure XlsbSheet where
   vis : SheetVisible
@@ -164,8 +150,61 @@ structure XlsbSheet where
   nameUnits : List Nat
   deriving Repr, DecidableEq
 
-def XlsbSheet.bytes (s : XlsbSheet) : Bytes :=
-  brec 0x009C (encodeBundleSh (xlsbVisCode s.vis) s.tabId s.relUnits s.nameUnits)
+def XlsbSheet.payload (s : XlsbSheet) : Bytes := encodeBundleSh (xlsbVisCode s.vis) s.tabId s.relUnits s.nameUnits
+
+/-- the records of `xl/workbook.bin` up to the end of the sheet list, each with its framing choice
+    (`wide`: 2-byte record id even below 128; `lenW`: requested width of the length varint, 0 = shortest) -/
+inductive WRec where
+  | sheet (s : XlsbSheet) (wide : Bool) (lenW : Nat)
+  | wbprop (flags : Nat) (wide : Bool) (lenW : Nat)
+  /-- any record the first loop does not interpret (BrtBeginBook, BrtFileVersion, BrtBookView, …) -/
+  | other (id : Nat) (payload : Bytes) (wide : Bool) (lenW : Nat)
+  deriving Repr, DecidableEq
+
+def WRec.bytes : WRec → Bytes
+  | .sheet s w l => Xlsb.frame 0x009C s.payload w l
+  | .wbprop f w l => Xlsb.frame 0x0099 (encodeWbProp f) w l
+  | .other id p w l => Xlsb.frame id p w l
+
+/-- `xl/workbook.bin` up to and including BrtEndBundleShs, then the rest of the part -/
+def encodeWorkbookBin (recs : List WRec) (endWide : Bool) (endLenW : Nat) (tail : Bytes) : Bytes :=
+  recs.flatMap WRec.bytes ++ (Xlsb.frame 0x0090 [] endWide endLenW ++ tail)
+
+/-- a declared sheet the reader must accept: known relationship whose target lies in a known folder -/
+def XlsbSheet.ok (rels : List (Text × String)) (s : XlsbSheet) : Prop :=
+  s.tabId < 4294967296 ∧ s.relUnits.length < 2147483648 ∧ s.nameUnits.length < 2147483648 ∧
+  (∀ u ∈ s.relUnits, u < 65536) ∧ (∀ u ∈ s.nameUnits, u < 65536) ∧
+  ∃ target kind, rels.lookup (Biff.decodeUtf16 s.relUnits) = some target ∧
+    kindOfPath Gen.xlsbKindTable ("xl/".toList ++ target.toList) = some kind
+
+/-- kind and path the reader derives from the relationship -/
+def XlsbSheet.pathOf (rels : List (Text × String)) (s : XlsbSheet) : List Char :=
+  "xl/".toList ++ ((rels.lookup (Biff.decodeUtf16 s.relUnits)).getD "").toList
+
+def XlsbSheet.decoded (rels : List (Text × String)) (s : XlsbSheet) : Sheet Text × List Char :=
+  (⟨Biff.decodeUtf16 s.nameUnits, (kindOfPath Gen.xlsbKindTable (s.pathOf rels)).getD .workSheet, s.vis⟩, s.pathOf rels)
+
+def WRec.ok (rels : List (Text × String)) : WRec → Prop
+  | .sheet s _ _ => s.ok rels ∧ s.payload.length < 268435456
+  | .wbprop f _ _ => f < 4294967296
+  | .other id p _ _ => id < 16384 ∧ id ≠ 0x0099 ∧ id ≠ 0x009C ∧ id ≠ 0x0090 ∧ p.length < 268435456
+
+def applyW (rels : List (Text × String)) (st : XlsbSt) : WRec → XlsbSt
+  | .sheet s _ _ => { st with sheets := st.sheets ++ [s.decoded rels] }
+  | .wbprop f _ _ => { st with is1904 := f % 2 = 1 }
+  | .other _ _ _ _ => st
+
+def declaredW : List WRec → List XlsbSheet
+  | [] => []
+  | .sheet s _ _ :: rs => s :: declaredW rs
+  | _ :: rs => declaredW rs
+
+/-- the date-system flag the part declares: bit 0 of the last BrtWbProp (false without one) -/
+def flagStep (b : Bool) : WRec → Bool
+  | .wbprop f _ _ => decide (f % 2 = 1)
+  | _ => b
+
+def flagW (recs : List WRec) : Bool := recs.foldl flagStep false
 
 /-! ## XML events -/
 
